@@ -154,6 +154,45 @@ func (e *Env) DrawSig(t *rapid.T, minParams, maxParams, maxResults int, modes []
 	for i := 0; i < nr; i++ {
 		s.Results = append(s.Results, e.DrawSigType(t, true))
 	}
+	if n >= 2 && mode != "unnamed" && rapid.IntRange(0, 5).Draw(t, "shadowing-name") == 0 {
+		// one parameter is called like a type or package that another parameter or a result mentions
+		// (time int64, d time.Duration): legal, and it hides that name from everything declared after it
+		var names []string
+		add := func(x string) {
+			for _, p := range s.Params {
+				if p.Name == x {
+					return
+				}
+			}
+			names = append(names, x)
+		}
+		collect := func(ty *Type) {
+			ty.Walk(func(x *Type) {
+				switch {
+				case x.Alias != "":
+					add(x.Alias)
+				case x.Kind == Basic:
+					add(x.Name)
+				case x.Kind == Iface && x.Name == "error":
+					add("error")
+				case x.Kind == Named && x.Decl.Pkg == nil && x.Decl.Generic == nil:
+					add(x.Decl.Name)
+				case x.Kind == Named && x.Decl.Pkg != nil:
+					add(x.Decl.Pkg.Name)
+				}
+			})
+		}
+		for _, p := range s.Params[1:] {
+			collect(p.Type)
+		}
+		for _, r := range s.Results {
+			collect(r)
+		}
+		if len(names) > 0 {
+			s.Params[0].Name = names[rapid.IntRange(0, len(names)-1).Draw(t, "shadowed")]
+			s.Mode = "shadowing"
+		}
+	}
 	if nr > 0 && !e.Opt.NoResultNames {
 		// named results: plain ones, or names the generated wrappers use themselves (never a parameter's name: Go forbids it)
 		taken := map[string]bool{}
